@@ -1,3 +1,4 @@
+import Mqtt5V.Proofs.TraceQuota
 import Mqtt5V.Model.SerialOrder
 import Mqtt5V.Proofs.Sender
 /-! # C06 — PUBLISH packets leave in initiation order, also when retransmitted (ordering core)
@@ -121,5 +122,27 @@ example : InWindow [⟨0, false, 7⟩, ⟨1, false, 0⟩, ⟨2, false, 5⟩, ⟨
   constructor
   · intro r hr; simp at hr; rcases hr with rfl | rfl | rfl | rfl <;> simp [HALF]
   · decide
+
+/-! ## the composed client model (`Model/Trace.lean`)
+The same labelled transition system as in C01/C03/C05/C07/C08 (tie: every H-client transcript of the real client must be accepted,
+`lib/trace_check.py`); the operations are numbered by the front end in the order of their API calls. -/
+section ComposedModel
+open Mqtt5V.Model
+
+/-- **C06 end to end, every accepted history**: after every prefix, the QoS 1/2 PUBLISH packets written on the current connection
+(`Trace.pubsOf`, read off the events alone: the operation numbers of the PUBLISH events since the last `connUp`) are strictly increasing,
+i.e. they left in the order in which their `async_publish` calls were initiated — first transmissions and retransmissions alike,
+whatever throttling, acknowledgements and reconnects lie in between (the serial-number window of the known finding F9 is a property of
+the comparator, not of this model) -/
+theorem composed_publish_order (tr pre post : List Trace.Ev) (hacc : Trace.accepts tr = true) (hsplit : tr = pre ++ post) :
+    (Trace.pubsOf pre).Pairwise (· < ·) :=
+  Mqtt5V.Proofs.Trace.publish_order hacc pre post hsplit
+
+example : Trace.accepts [.init 1 .pub1 1, .init 2 .pub1 1, .connUp (some 1), .wr, .pk (.publish 1 1 7 false 3), .wrOk, .connUp none, .wr,
+    .pk (.publish 1 1 7 true 3), .pk (.publish 2 1 8 false 4)] = true := by decide
+example : Trace.accepts [.init 1 .pub1 1, .init 2 .pub1 1, .connUp (some 1), .wr, .pk (.publish 1 1 7 false 3), .wrOk, .connUp none, .wr,
+    .pk (.publish 2 1 8 false 4), .pk (.publish 1 1 7 true 3)] = false := by decide
+
+end ComposedModel
 
 end Mqtt5V.Props.C06
